@@ -22,7 +22,10 @@ def declared_key(nb):
 
 
 def is_marker_cell(c):
-    return isinstance(c, dict) and c.get('cell_type') == 'markdown' and isinstance(c.get('source'), str) and c['source'].startswith(MARK)
+    if not (isinstance(c, dict) and c.get('cell_type') == 'markdown'): return False
+    src = c.get('source')
+    if isinstance(src, list) and all(isinstance(x, str) for x in src): src = ''.join(src)   # on disk: list of lines
+    return isinstance(src, str) and src.startswith(MARK)
 
 
 def signature(ref, nb):
@@ -47,6 +50,18 @@ def signature(ref, nb):
         if isinstance(i, dict) and set(i) == {'local_id', 'remote_id'}:
             c['id'] = i['local_id']; hit = True
     if hit: sigs.append('similar-insert-cell-has-dict-valued-id')
+    if sigs and ref.is_valid(key, fixed): return sigs, detail
+    hit = False
+    for c in cells:
+        if not isinstance(c, dict): continue
+        if c.get('cell_type') in ('markdown', 'raw'):
+            for f in ('outputs', 'execution_count'):
+                if f in c: del c[f]; hit = True
+        elif c.get('cell_type') == 'code':
+            if 'attachments' in c: del c['attachments']; hit = True
+            if 'outputs' not in c: c['outputs'] = []; hit = True
+            if 'execution_count' not in c: c['execution_count'] = None; hit = True
+    if hit: sigs.append('cell-type-change-merged-with-fields-of-the-other-cell-type')
     if sigs and ref.is_valid(key, fixed):
         # keep only the repairs that are needed
         return sigs, detail
